@@ -48,6 +48,12 @@ func genC19(t *rapid.T) any {
 		dir := rapid.SampledFrom([]string{"", " DESC", " ASC"}).Draw(t, "ok.dir")
 		tail := rapid.SampledFrom([]string{"", ", " + sc.k, " LIMIT 1", ", " + sc.k + " DESC LIMIT 2 OFFSET 1"}).Draw(t, "ok.tail")
 		q := "SELECT * FROM t ORDER BY " + bad + dir + tail
+		if rapid.IntRange(0, 2).Draw(t, "ok.second") == 0 {
+			// the unreadable key comes second (or third), after keys on which every row ties: each row takes part in at
+			// least one comparison, every comparison ties on the leading keys and has to read the key that cannot be read
+			lead := rapid.SampledFrom([]string{"one, ", "one DESC, ", "one, two DESC, "}).Draw(t, "ok.lead")
+			q = "SELECT *, 1 AS one, 'c' AS two FROM t ORDER BY " + lead + bad + dir + tail
+		}
 		c.RaiseSQL = rapid.SampledFrom([]string{q, q, "SELECT * FROM (" + q + ") x", "WITH c AS (" + q + ") SELECT * FROM c", "SELECT " + sc.k + ", (SELECT * FROM `<-t` ORDER BY " + bad + ") AS sb FROM t"}).Draw(t, "ok.form")
 		c.RaiseProb = "SELECT " + bad + " AS z FROM t"
 		return c
